@@ -256,7 +256,7 @@ def run(pid, tier_, replay=None):
         print("DRIFT (not a verdict): %d split cases where the real fragments differ from Split.tla's, e.g. %s" % (len(split["drift"]), json.dumps(split["drift"][0])))
     if rt:
         for d_ in rt["drift"][:3]:
-            print("DRIFT (not a verdict): hook accounting %s at event %d of the repository's test %s" % (d_[1], d_[3], d_[2]))
+            print("DRIFT (not a verdict): hook-level clause %s/%s at event %d of the repository's test %s" % (d_[0], d_[1], d_[3], d_[2]))
         if rt["failed_tests"]:
             print("NOTE: %d of the repository's tests fail when run one by one with the verif tag: %s" % (len(rt["failed_tests"]), rt["failed_tests"][:5]))
     for er in conf["errors"][:2]:
